@@ -24,12 +24,17 @@ PROVED = ['mul_with_mod_spec [P]: for f canonical of degree n, a, b canonical of
           'get_mult_table_shape [P]: a returned table is n x n x n',
           'table_mul_agrees [P]: if get_mult_table returned, mul on integer coordinate vectors returns the coordinates of the product in Q[x]/(f)',
           'to_z_basis_int_spec [P]: returned integer coordinates reproduce the element',
-          'norm_det [P]: on an n x n x n table norm a = det of the integer matrix sum_i a_i T_i (the multiplication matrix); to_integer does not truncate']
-NOT_PROVED = ['trace = \\tr of the multiplication matrix (only the closed-form sum is proved)',
-              'norm multiplicative (needs associativity of the structure constants + det_mulmx through LinAlg.determinant); oracle: norm = det of the multiplication matrix on every case',
-              'inv_spec: a * b = d = |norm a| (oracle on every case)', 'get_inv_diff = dual lattice of the trace form (oracle on every case)',
+          'norm_det [P]: on an n x n x n table norm a = det of the integer matrix sum_i a_i T_i (the multiplication matrix); to_integer does not truncate',
+          'table_of_order_comm / table_of_order_assoc [P]: if get_mult_table b f = Done t (any n, b any n x n rational matrix) then MultTable::mul of t is commutative and associative on all integer vectors of length n (both profiles)',
+          'table_of_order_comm_assoc [P]: for such t the boolean flags Ideal.table_shape, Ideal.table_comm, IdealLaws.table_assoc (the table hypotheses of the C16 laws) are true',
+          'norm_multiplicative [P] (hypothesis: n x n x n table with table_assoc = true) and norm_multiplicative_order [P] (table of an order, no flag): norm (mul a b) = norm a * norm b; rep_matrix_mul [P]: M_(a*b) = M_b *m M_a',
+          'trace_is_matrix_trace [P]: trace a = \\tr of the matrix of x |-> x * a on every n x n x n table; trace_is_rep_trace [P] (table_comm = true) / trace_is_rep_trace_order [P]: trace a = \\tr M_a for the matrix M_a whose determinant norm returns',
+          'inv_spec [P]: on every n x n x n table, with nm = norm a: nm = 0 -> inv a panics (unwrap of Err(MatrixNotInvertible)); nm <> 0 -> inv a = Done (b, |nm|), size b = n, mul a b = |nm| * e_0 (the rational row |nm| * row 0 of M_a^-1 is integral: to_integer does not truncate)',
+          'inv_cancel [P] (table_assoc = true, e_0 a right identity): for (b, d) returned by inv a, mul (mul c a) b = d * c for every c',
+          'norm_resultant [P]: for every f of degree n >= 1 (any leading coefficient), every basis b with get_mult_table b f = Done t and every integer vector a: with g = sum_k a_k * (row k of b) the polynomial such that the element is g(theta), qz (norm a) = resultant g f / lc(f)^(deg g) over Qc (MathComp Sylvester determinant; resultant g f is the classical Res(f, g))',
+          'norm_resultant_monic [P]: for monic f and the power basis (identity_power_basis: the basis trivial_order_monic starts from), norm a = resultant (Poly a) (Poly f) over Z']
+NOT_PROVED = ['get_inv_diff = dual lattice of the trace form (oracle on every case)',
               'to_z_basis with rational coordinates (oracle on every case)',
-              'norm(g(theta)) = Res(f, g) / lc(f)^deg g (oracle relation only)',
               'totality of get_mult_table for lattices closed under multiplication (partial correctness only: statements carry get_mult_table b f = Done t)']
 ASSUMPTIONS = ['solve_linear_system / determinant / inv are used through the C18 theorems of area/linalg (solve_ok) merged into this branch',
                'Algebraic.as_coefs with the zero polynomial is not run (the frozen model would build a list of usize::MAX entries; the code aborts with capacity overflow)']
@@ -39,10 +44,15 @@ CLAIM = dict(
     text='Theorems in coq/Props/C14.v hold for all f of degree n >= 1 (any leading coefficient, reducible or not), all canonical representatives and all '
          'n x n x n tables (no size bound): mul_with_mod is the polynomial remainder of the product; ring laws and a^(s+t) = a^s a^t as equalities of stored '
          'representatives; binary exponentiation terminates within the supplied fuel; MultTable::mul is bilinear, trace additive; a table returned by '
-         'get_mult_table makes mul agree with the product in Q[x]/(f) on coordinate vectors. The model (coq/Model/Algebraic.v, MultTable.v, Order.v) reproduces '
+         'get_mult_table makes mul agree with the product in Q[x]/(f) on coordinate vectors, and its mul is commutative and associative on all integer vectors '
+         '(so the boolean table flags assumed by the C16 laws hold for every table of an order); norm a = det M_a and trace a = tr M_a for the integer matrix '
+         'M_a = sum_i a_i T_i; norm is multiplicative on every associative table; inv a returns (b, |norm a|) with a * b = |norm a| * e_0 whenever norm a <> 0 '
+         '(the adjugate argument: nothing is truncated) and panics when norm a = 0; norm(g(theta)) = Res(f, g) / lc(f)^(deg g) for every table of an order, any basis '
+         '(Res = MathComp\'s Sylvester determinant; the link from the model\'s resultant routines to that determinant is C10\'s). The model (coq/Model/Algebraic.v, MultTable.v, Order.v) reproduces '
          'the routines statement by statement including assertions, unwraps and bounds checks; it is tied to /repo by running the extracted model and impl_svc on '
          'the same inputs.',
-    note='Not proved (checked by independent Fraction oracles on every explored input): norm/inv/get_inv_diff clauses, norm multiplicativity, norm(g(theta)) = Res(f,g)/lc^deg g. '
+    note='Not proved (checked by independent Fraction oracles on every explored input): get_inv_diff, to_z_basis with rational coordinates. '
+         'inv_spec is stated for every well-shaped table: that b / |norm a| is the inverse of a needs w_0 = 1 and associativity (inv_cancel), which the theorem takes as hypotheses. '
          'Statements about tables are partial-correctness statements (they assume get_mult_table returned).',
     ref='DESIGN.md section 4, C14')
 
